@@ -246,9 +246,13 @@ pub fn gen_c03(rng: &mut Rng, tier: Tier) -> MsgScn {
 pub fn gen_c02(rng: &mut Rng, tier: Tier) -> MsgScn {
     // I0 and I1 have different keys and iss; I2 (sometimes) has yet another key but claims I0's iss
     let mut iss = issuers(rng, 3);
-    let same_iss = rng.chance(1, 2);
-    if same_iss {
-        iss[2].iss = iss[0].iss.clone();
+    // I2 claims exactly I0's iss (the directory answers with I0's key), or an iss that differs from
+    // I0's only by a trailing '/', by case, or by surrounding whitespace (each its own directory entry)
+    match rng.usize(6) {
+        0 | 1 | 2 => iss[2].iss = iss[0].iss.clone(),
+        3 => iss[2].iss = format!("{}/", iss[0].iss),
+        4 => iss[2].iss = iss[0].iss.to_uppercase(),
+        _ => {}
     }
     let now = clock_base(rng);
     let cfg = GenCfg::small(rng);
@@ -285,6 +289,17 @@ pub fn gen_c02(rng: &mut Rng, tier: Tier) -> MsgScn {
     // token of the issuer that claims another issuer's iss: the directory returns I0's key
     cases.push(plain(Base::Cred(3), rand_fmt(rng)));
     cases.push(plain(Base::Pres(3), rand_fmt(rng)));
+    // byzantine issuer I0 signs (with its own genuine key) a payload claiming another issuer's iss,
+    // or an iss that differs from its own by a trailing '/': the directory is keyed by the literal iss
+    let i0_alg = iss[0].alg.clone().unwrap_or_else(|| "ES256".into());
+    for claimed in [iss[1].iss.clone(), iss[2].iss.clone(), format!("{}/", iss[0].iss), format!(" {}", iss[0].iss), String::new()] {
+        if claimed == iss[0].iss {
+            continue;
+        }
+        let mut c = plain(if rng.bool() { Base::Cred(0) } else { Base::Pres(0) }, rand_fmt(rng));
+        c.faults.push(Fault::ByzPayload { edit: PayloadEdit::SetClaim("iss".into(), json!(claimed)), key: iss[0].key.clone(), alg: i0_alg.clone() });
+        cases.push(c);
+    }
     let main = if rng.bool() { Base::Pres(0) } else { Base::Cred(0) };
     // enumerated single-character faults
     let (hs, ps) = match tier {
@@ -372,6 +387,12 @@ pub fn gen_c04(rng: &mut Rng, tier: Tier) -> MsgScn {
     let cfg = GenCfg::small(rng);
     let hk0 = holder_key(rng);
     let hk2 = if hk0 == "ecC" { "edB".to_string() } else { "ecC".to_string() };
+    // sometimes the confirmation JWKs carry a `kid` — the same label on two different keys
+    let (hk0, hk2) = match rng.usize(4) {
+        0 => (format!("{}#holder-key-1", hk0), format!("{}#holder-key-1", hk2)),
+        1 => (format!("{}#k-{}", hk0, rng.below(100)), hk2),
+        _ => (hk0, hk2),
+    };
     let mut mk = |rng: &mut Rng, issuer: usize, hk: Option<String>| {
         let claims = gen::gen_claims(rng, &cfg, &iss[issuer].iss, now);
         // AllLevels / TopLevel so that there are disclosures to add, drop and reorder
@@ -472,7 +493,7 @@ pub fn gen_c04(rng: &mut Rng, tier: Tier) -> MsgScn {
                                 json!(null)
                             }
                         }
-                        KbField::Iat => json!("yesterday"),
+                        KbField::Iat => rng.pick(&[json!("yesterday"), json!(u64::MAX), json!(9223372036854775808u64), json!(-1), json!(1e30), json!(0), json!(null), json!([1]), json!(1.5)]).clone(),
                     })
                 };
                 c.faults.push(Fault::KbFieldEdit { key: hk0.clone(), alg: alg_of(&hk0), aud: s1.0.clone(), nonce: s1.1.clone(), field, value });
